@@ -1,1 +1,1255 @@
-// generators
+// Tape-decoded, context-aware program generator over the documented feature
+// set. The decoder constructs (it never filters): it tracks the names in scope
+// with a static guess of their type so that most programs run to completion,
+// and deliberately makes ill-typed / out-of-range choices with a tunable
+// probability. The oracle, not the generator, decides what the right answer
+// is. An exhausted tape yields the smallest choice everywhere.
+
+use std::rc::Rc;
+
+use crate::ast::*;
+use crate::tape::Tape;
+
+#[derive(Clone, Debug, PartialEq)]
+pub enum Ty {
+    Null,
+    Int,
+    Bool,
+    Str,
+    // Element type and statically known length.
+    List(Box<Ty>, usize),
+    Obj(Vec<(String, Ty)>),
+    Fn(Rc<FnSig>),
+    // A name whose value the generator does not reason about.
+    Opaque,
+}
+
+#[derive(Clone, Debug, PartialEq)]
+pub struct FnSig {
+    pub params: Vec<Ty>,
+    // Element type of a `..rest` parameter.
+    pub rest: Option<Ty>,
+    pub ret: Ty,
+    // The body uses `this` and expects an object with these properties.
+    pub this: Option<Vec<(String, Ty)>>,
+}
+
+#[derive(Clone, Debug)]
+struct VarInfo {
+    name: String,
+    ty: Ty,
+    assignable: bool,
+}
+
+#[derive(Clone, Debug)]
+pub struct GenCfg {
+    pub max_top: usize,
+    pub max_block: usize,
+    pub max_depth: usize,
+    pub expr_depth: usize,
+    // Per cent chance of a deliberately sloppy (ill-typed, undefined,
+    // out-of-range) choice at an expression site.
+    pub sloppy: usize,
+    pub w_decl: u32,
+    pub w_assign: u32,
+    pub w_print: u32,
+    pub w_if: u32,
+    pub w_while: u32,
+    pub w_for: u32,
+    pub w_block: u32,
+    pub w_fn: u32,
+    pub w_call: u32,
+    pub w_destructure: u32,
+    pub w_elem_assign: u32,
+    pub w_jump: u32,
+    pub w_method: u32,
+    pub w_closure: u32,
+    pub w_idiom: u32,
+    // Per cent chance that a declaration in a nested scope reuses (shadows)
+    // the name of an outer variable.
+    pub shadow: usize,
+    pub interp: bool,
+    pub big_ints: bool,
+    pub unicode: bool,
+    pub aliasing: bool,
+}
+
+impl GenCfg {
+    pub fn balanced() -> GenCfg {
+        GenCfg{
+            max_top: 14, max_block: 4, max_depth: 4, expr_depth: 3, sloppy: 2,
+            w_decl: 10, w_assign: 6, w_print: 12, w_if: 5, w_while: 3, w_for: 4,
+            w_block: 2, w_fn: 4, w_call: 5, w_destructure: 3, w_elem_assign: 4,
+            w_jump: 3, w_method: 2, w_closure: 2, w_idiom: 6, shadow: 25, interp: true, big_ints: false,
+            unicode: true, aliasing: true,
+        }
+    }
+    pub fn hostile() -> GenCfg {
+        let mut c = GenCfg::balanced();
+        c.sloppy = 25;
+        c.big_ints = true;
+        c
+    }
+    pub fn small() -> GenCfg {
+        let mut c = GenCfg::balanced();
+        c.max_top = 6;
+        c.max_block = 3;
+        c.max_depth = 3;
+        c
+    }
+}
+
+pub struct Gen<'a> {
+    pub t: &'a mut Tape,
+    pub cfg: GenCfg,
+    scopes: Vec<Vec<VarInfo>>,
+    fresh: u32,
+    loop_depth: usize,
+    fn_depth: usize,
+    ret_ty: Vec<Ty>,
+    this_ty: Vec<Option<Vec<(String, Ty)>>>,
+    depth: usize,
+    budget: i32,
+}
+
+const KEYS: [&str; 8] = ["a", "b", "k", "n", "tag", "x", "y", "zz"];
+const WORDS: [&str; 10] = ["", "a", "b", "ab", "hello", "x y", "é", "日本", "🙂!", "line\nbreak"];
+
+pub fn gen_prog(t: &mut Tape, cfg: &GenCfg) -> Prog {
+    let mut g = Gen{
+        t, cfg: cfg.clone(), scopes: vec![vec![]], fresh: 0, loop_depth: 0, fn_depth: 0,
+        ret_ty: vec![], this_ty: vec![], depth: 0, budget: 400,
+    };
+    let n = 1 + g.t.pick(g.cfg.max_top);
+    let mut stmts = vec![];
+    for _ in 0..n {
+        g.stmt(&mut stmts);
+        if g.budget <= 0 {
+            break;
+        }
+    }
+    Prog::new(stmts)
+}
+
+impl Gen<'_> {
+    fn fresh(&mut self, prefix: &str) -> String {
+        self.fresh += 1;
+        format!("{prefix}{}", self.fresh)
+    }
+
+    fn declare(&mut self, name: &str, ty: Ty, assignable: bool) {
+        self.scopes.last_mut().unwrap().push(VarInfo{name: name.to_string(), ty, assignable});
+    }
+
+    fn visible(&self) -> Vec<VarInfo> {
+        // Innermost first; shadowed names hidden.
+        let mut out: Vec<VarInfo> = vec![];
+        for sc in self.scopes.iter().rev() {
+            for v in sc.iter().rev() {
+                if !out.iter().any(|o| o.name == v.name) {
+                    out.push(v.clone());
+                }
+            }
+        }
+        out
+    }
+
+    fn vars_of(&self, pred: &dyn Fn(&Ty) -> bool) -> Vec<VarInfo> {
+        self.visible().into_iter().filter(|v| pred(&v.ty)).collect()
+    }
+
+    fn sloppy(&mut self) -> bool {
+        self.cfg.sloppy > 0 && self.t.chance(self.cfg.sloppy, 100)
+    }
+
+    // ------------------------------------------------------------- types
+
+    fn small_ty(&mut self, depth: usize) -> Ty {
+        let w: &[u32] = if depth == 0 { &[5, 2, 3, 0, 0] } else { &[5, 2, 3, 3, 3] };
+        match self.t.weighted(w) {
+            0 => Ty::Int,
+            1 => Ty::Bool,
+            2 => Ty::Str,
+            3 => {
+                let e = self.small_ty(depth - 1);
+                let n = self.t.pick(4);
+                Ty::List(Box::new(e), n)
+            },
+            _ => {
+                let n = 1 + self.t.pick(3);
+                let mut fields: Vec<(String, Ty)> = vec![];
+                for _ in 0..n {
+                    let k = KEYS[self.t.pick(KEYS.len())].to_string();
+                    if fields.iter().any(|(f, _)| *f == k) {
+                        continue;
+                    }
+                    let ty = self.small_ty(depth - 1);
+                    fields.push((k, ty));
+                }
+                Ty::Obj(fields)
+            },
+        }
+    }
+
+    // ------------------------------------------------------- expressions
+
+    fn int_lit(&mut self) -> Expr {
+        if self.cfg.big_ints && self.t.chance(1, 6) {
+            let big = [i64::MAX, i64::MAX - 1, -i64::MAX, 1 << 62, 3037000500, -3037000500, 1 << 32, (1 << 31) - 1, 4611686018427387904, 0];
+            return int(big[self.t.pick(big.len())]);
+        }
+        let v = self.t.range(0, 12) - 2;
+        if self.t.chance(1, 12) {
+            let mag = v.unsigned_abs();
+            return ex(EK::Int{v, text: Some(format!("0_{mag}"))});
+        }
+        int(v)
+    }
+
+    fn str_lit(&mut self) -> Expr {
+        let n = if self.cfg.unicode { WORDS.len() } else { 6 };
+        let w = WORDS[self.t.pick(n)];
+        let mut e = string(w);
+        if self.t.chance(1, 8) {
+            if let EK::Str(cs) = &mut e.k {
+                for c in cs.iter_mut() {
+                    if c.0.is_ascii_alphanumeric() {
+                        c.1 = Spell::Hex;
+                    }
+                }
+            }
+        }
+        e
+    }
+
+    // A deliberately wrong or random-typed expression.
+    fn wrong(&mut self, d: usize) -> Expr {
+        match self.t.pick(8) {
+            0 => null(),
+            1 => var(&format!("undef{}", self.t.pick(3))),
+            2 => boolean(true),
+            3 => string("s"),
+            4 => list(vec![]),
+            5 => obj(vec![]),
+            6 => int(-1),
+            _ => {
+                let ty = self.small_ty(1);
+                self.expr(&ty, d)
+            },
+        }
+    }
+
+    pub fn expr(&mut self, ty: &Ty, d: usize) -> Expr {
+        self.budget -= 1;
+        if self.sloppy() {
+            return self.wrong(d.saturating_sub(1));
+        }
+        // Leaves from the context: variables, fields, elements of this type.
+        let mut leaves: Vec<Expr> = vec![];
+        for v in self.visible() {
+            if &v.ty == ty {
+                leaves.push(var(&v.name));
+            }
+            match &v.ty {
+                Ty::Obj(fields) => {
+                    for (k, fty) in fields {
+                        if fty == ty && !matches!(fty, Ty::Fn(_)) {
+                            leaves.push(if is_ident(k) { prop(var(&v.name), k) } else { index(var(&v.name), string(k)) });
+                            leaves.push(index(var(&v.name), string(k)));
+                        }
+                    }
+                },
+                Ty::List(e, n) if **e == *ty && *n > 0 => {
+                    leaves.push(index(var(&v.name), int((*n - 1) as i64)));
+                    leaves.push(index(var(&v.name), int(0)));
+                },
+                _ => {},
+            }
+        }
+        if let Some(Some(fields)) = self.this_ty.last() {
+            for (k, fty) in fields.clone() {
+                if fty == *ty {
+                    leaves.push(prop(var("this"), &k));
+                }
+            }
+        }
+        let use_leaf = !leaves.is_empty() && (d == 0 || self.t.chance(2, 5));
+        if use_leaf {
+            let i = self.t.pick(leaves.len());
+            return leaves.swap_remove(i);
+        }
+        // Calls of functions in scope that return this type.
+        if d > 0 && self.budget > 0 && self.t.chance(1, 4) {
+            let fs: Vec<VarInfo> = self.vars_of(&|t| matches!(t, Ty::Fn(s) if s.ret == *ty && s.this.is_none()));
+            if !fs.is_empty() {
+                let f = fs[self.t.pick(fs.len())].clone();
+                if let Ty::Fn(sig) = &f.ty {
+                    return self.call_of(var(&f.name), sig, d - 1);
+                }
+            }
+        }
+        match ty {
+            Ty::Null => null(),
+            Ty::Int => self.int_expr(d),
+            Ty::Bool => self.bool_expr(d),
+            Ty::Str => self.str_expr(d),
+            Ty::List(e, n) => self.list_expr(e, *n, d),
+            Ty::Obj(fields) => self.obj_expr(fields, d),
+            Ty::Fn(sig) => self.fn_expr(sig),
+            Ty::Opaque => null(),
+        }
+    }
+
+    fn int_expr(&mut self, d: usize) -> Expr {
+        if d == 0 {
+            return self.int_lit();
+        }
+        match self.t.weighted(&[4, 6, 2, 1, 1, 1]) {
+            0 => self.int_lit(),
+            1 => {
+                let op = [Op::Sum, Op::Sub, Op::Mul][self.t.pick(3)];
+                let l = self.expr(&Ty::Int, d - 1);
+                let r = self.expr(&Ty::Int, d - 1);
+                bin(op, l, r)
+            },
+            2 => {
+                let op = [Op::Div, Op::Mod][self.t.pick(2)];
+                let l = self.expr(&Ty::Int, d - 1);
+                let r = if self.t.chance(1, 10) { self.expr(&Ty::Int, d - 1) } else { int([1, 2, 3, 7, -2][self.t.pick(5)]) };
+                bin(op, l, r)
+            },
+            3 => {
+                let s = self.expr(&Ty::Str, d - 1);
+                call(tprop(s, "len"), vec![])
+            },
+            4 => {
+                // Element of a fresh range.
+                let a = self.t.range(0, 3);
+                let n = self.t.range(1, 4);
+                let i = self.t.pick(n as usize) as i64;
+                index(paren_if_needed(range(int(a), int(a + n))), int(i))
+            },
+            _ => paren(self.int_lit()),
+        }
+    }
+
+    fn bool_expr(&mut self, d: usize) -> Expr {
+        if d == 0 {
+            return boolean(self.t.chance(1, 2));
+        }
+        match self.t.weighted(&[3, 5, 3, 3, 1]) {
+            0 => boolean(self.t.chance(1, 2)),
+            1 => {
+                let op = [Op::Lt, Op::Lte, Op::Gt, Op::Gte, Op::Eq, Op::Ne][self.t.pick(6)];
+                let l = self.expr(&Ty::Int, d - 1);
+                let r = self.expr(&Ty::Int, d - 1);
+                bin(op, l, r)
+            },
+            2 => {
+                let op = [Op::And, Op::Or][self.t.pick(2)];
+                let l = self.expr(&Ty::Bool, d - 1);
+                let r = self.expr(&Ty::Bool, d - 1);
+                bin(op, l, r)
+            },
+            3 => {
+                let ty = self.small_ty(1);
+                let op = [Op::Eq, Op::Ne][self.t.pick(2)];
+                let l = self.expr(&ty, d - 1);
+                let r = self.expr(&ty, d - 1);
+                bin(op, l, r)
+            },
+            _ => {
+                // Identity of containers in scope.
+                let cs = self.vars_of(&|t| matches!(t, Ty::List(..) | Ty::Obj(_)));
+                if cs.len() >= 1 {
+                    let a = cs[self.t.pick(cs.len())].clone();
+                    let same: Vec<&VarInfo> = cs.iter().filter(|c| std::mem::discriminant(&c.ty) == std::mem::discriminant(&a.ty)).collect();
+                    let b = same[self.t.pick(same.len())].clone();
+                    let op = [Op::RefEq, Op::RefNe][self.t.pick(2)];
+                    bin(op, var(&a.name), var(&b.name))
+                } else {
+                    boolean(false)
+                }
+            },
+        }
+    }
+
+    fn str_expr(&mut self, d: usize) -> Expr {
+        if d == 0 {
+            return self.str_lit();
+        }
+        match self.t.weighted(&[4, 4, 2, 2, 2, 1]) {
+            0 => self.str_lit(),
+            1 => {
+                let l = self.expr(&Ty::Str, d - 1);
+                let r = self.expr(&Ty::Str, d - 1);
+                bin(Op::Sum, l, r)
+            },
+            2 if self.cfg.interp => {
+                let n = 1 + self.t.pick(2);
+                let mut parts = vec![];
+                for _ in 0..n {
+                    let w = WORDS[self.t.pick(if self.cfg.unicode { WORDS.len() } else { 6 })];
+                    parts.push(StrPart::Text(w.chars().map(|c| (c, natural_spell(c))).collect()));
+                    let mut e = self.expr(&Ty::Str, d - 1);
+                    strip_braces_from_strings(&mut e);
+                    parts.push(StrPart::Slot(Box::new(e)));
+                }
+                let w = WORDS[self.t.pick(6)];
+                parts.push(StrPart::Text(w.chars().map(|c| (c, natural_spell(c))).collect()));
+                ex(EK::Interp(parts))
+            },
+            3 => {
+                let ty = self.small_ty(1);
+                let e = self.expr(&ty, d - 1);
+                call(tprop(paren_if_needed(e), "type"), vec![])
+            },
+            4 => {
+                // Slice / index of an ASCII literal.
+                let w = ["abcdef", "hello", "xyz"][self.t.pick(3)];
+                let len = w.len();
+                let a = self.t.pick(len + 1);
+                let b = a + self.t.pick(len + 1 - a);
+                match self.t.pick(4) {
+                    0 => range_index(string(w), Some(int(a as i64)), Some(int(b as i64))),
+                    1 => range_index(string(w), None, Some(int(b as i64))),
+                    2 => range_index(string(w), Some(int(a as i64)), None),
+                    _ => index(string(w), int(self.t.pick(len) as i64)),
+                }
+            },
+            _ => self.str_lit(),
+        }
+    }
+
+    fn list_expr(&mut self, e: &Ty, n: usize, d: usize) -> Expr {
+        // Building forms that keep the static length `n`.
+        if d > 0 && self.t.chance(1, 3) {
+            // Split as a + b or spread.
+            let k = self.t.pick(n + 1);
+            let l = self.expr(&Ty::List(Box::new(e.clone()), k), d - 1);
+            let r = self.expr(&Ty::List(Box::new(e.clone()), n - k), d - 1);
+            return match self.t.pick(3) {
+                0 => bin(Op::Sum, l, r),
+                1 => list_items(vec![spread(l), spread(r)], false),
+                _ => {
+                    let whole = bin(Op::Sum, l, r);
+                    range_index(paren_if_needed(whole), None, None)
+                },
+            };
+        }
+        if *e == Ty::Int && n > 0 && self.t.chance(1, 5) {
+            let a = self.t.range(-2, 5);
+            return range(int(a), int(a + n as i64));
+        }
+        let mut items = vec![];
+        for _ in 0..n {
+            items.push(self.expr(e, d.saturating_sub(1)));
+        }
+        list(items)
+    }
+
+    fn obj_expr(&mut self, fields: &[(String, Ty)], d: usize) -> Expr {
+        let mut props = vec![];
+        // Optionally start from a spread of an object with a subset of keys.
+        for (k, ty) in fields {
+            let v = self.expr(ty, d.saturating_sub(1));
+            match self.t.pick(6) {
+                0 => props.push(Prop::Pair(bin(Op::Sum, string(""), string(k)), v)),
+                _ => props.push(Prop::Pair(string(k), v)),
+            }
+        }
+        if self.t.chance(1, 6) && !fields.is_empty() {
+            // A duplicate earlier entry that the later one replaces.
+            let (k, _) = &fields[0];
+            props.insert(0, Prop::Pair(string(k), null()));
+        }
+        obj(props)
+    }
+
+    fn fn_expr(&mut self, sig: &Rc<FnSig>) -> Expr {
+        let (params, collect, body) = self.fn_parts(sig);
+        func(params, collect, body)
+    }
+
+    fn call_of(&mut self, callee: Expr, sig: &Rc<FnSig>, d: usize) -> Expr {
+        let mut args: Vec<Item> = vec![];
+        let mut i = 0;
+        while i < sig.params.len() {
+            // Sometimes pass two consecutive same-typed parameters by spread.
+            if i + 1 < sig.params.len() && sig.params[i] == sig.params[i + 1] && self.t.chance(1, 6) {
+                let l = self.expr(&Ty::List(Box::new(sig.params[i].clone()), 2), d);
+                args.push(spread(l));
+                i += 2;
+                continue;
+            }
+            let a = self.expr(&sig.params[i].clone(), d);
+            args.push(item(a));
+            i += 1;
+        }
+        if let Some(r) = &sig.rest {
+            let n = self.t.pick(3);
+            for _ in 0..n {
+                let a = self.expr(&r.clone(), d);
+                args.push(item(a));
+            }
+        }
+        if self.sloppy() {
+            args.pop();
+        }
+        call_items(callee, args)
+    }
+
+    // ---------------------------------------------------------- functions
+
+    fn new_sig(&mut self, this: Option<Vec<(String, Ty)>>) -> Rc<FnSig> {
+        let n = self.t.pick(3);
+        let mut params = vec![];
+        for _ in 0..n {
+            params.push(self.small_ty(1));
+        }
+        let rest = if self.t.chance(1, 5) { Some(self.small_ty(0)) } else { None };
+        let ret = if self.t.chance(1, 5) { Ty::Null } else { self.small_ty(1) };
+        Rc::new(FnSig{params, rest, ret, this})
+    }
+
+    fn fn_parts(&mut self, sig: &Rc<FnSig>) -> (Vec<Expr>, bool, Vec<Stmt>) {
+        self.scopes.push(vec![]);
+        self.fn_depth += 1;
+        let saved_loop = self.loop_depth;
+        self.loop_depth = 0;
+        self.ret_ty.push(sig.ret.clone());
+        self.this_ty.push(sig.this.clone());
+        let mut params = vec![];
+        for ty in &sig.params {
+            // Sometimes destructure a list / object parameter.
+            match ty {
+                Ty::List(e, n) if *n > 0 && *n <= 3 && self.t.chance(1, 4) => {
+                    let mut names = vec![];
+                    for _ in 0..*n {
+                        let nm = self.fresh("p");
+                        self.declare(&nm, (**e).clone(), true);
+                        names.push(var(&nm));
+                    }
+                    params.push(list(names));
+                },
+                Ty::Obj(fields) if !fields.is_empty() && self.t.chance(1, 4) => {
+                    let mut props = vec![];
+                    for (k, fty) in fields {
+                        let nm = self.fresh("p");
+                        self.declare(&nm, fty.clone(), true);
+                        props.push(Prop::Pair(string(k), var(&nm)));
+                    }
+                    params.push(obj(props));
+                },
+                _ => {
+                    let nm = self.fresh("p");
+                    self.declare(&nm, ty.clone(), true);
+                    params.push(var(&nm));
+                },
+            }
+        }
+        let collect = sig.rest.is_some();
+        if let Some(_r) = &sig.rest {
+            let nm = self.fresh("r");
+            // Length unknown: not registered as a typed variable; printed.
+            params.push(var(&nm));
+            self.scopes.last_mut().unwrap().push(VarInfo{name: nm, ty: Ty::Opaque, assignable: false});
+        }
+        let mut body = vec![];
+        if collect {
+            let nm = match &params.last().unwrap().k { EK::Var(n) => n.clone(), _ => unreachable!() };
+            if sig.rest.as_ref().map(printable).unwrap_or(false) {
+                body.push(print(var(&nm)));
+            }
+        }
+        let n = self.t.pick(self.cfg.max_block + 1);
+        self.depth += 1;
+        for _ in 0..n {
+            self.stmt(&mut body);
+        }
+        self.depth -= 1;
+        // Final return of the declared type (Null = run off the end or
+        // return null).
+        if sig.ret != Ty::Null || self.t.chance(1, 3) {
+            let r = self.expr(&sig.ret.clone(), self.cfg.expr_depth.saturating_sub(1));
+            body.push(ret(r));
+        }
+        self.this_ty.pop();
+        self.ret_ty.pop();
+        self.loop_depth = saved_loop;
+        self.fn_depth -= 1;
+        self.scopes.pop();
+        (params, collect, body)
+    }
+
+    // ---------------------------------------------------------- statements
+
+    // Statements generated into the current generator scope (for bodies
+    // whose run-time frame is the one that already holds the loop target /
+    // body-level declarations).
+    fn stmts_here(&mut self, out: &mut Vec<Stmt>, min: usize) {
+        self.depth += 1;
+        let n = min + self.t.pick(self.cfg.max_block);
+        for _ in 0..n {
+            self.stmt(out);
+        }
+        self.depth -= 1;
+    }
+
+    fn block(&mut self, out: &mut Vec<Stmt>, min: usize) {
+        self.scopes.push(vec![]);
+        self.depth += 1;
+        let n = min + self.t.pick(self.cfg.max_block);
+        for _ in 0..n {
+            self.stmt(out);
+        }
+        self.depth -= 1;
+        self.scopes.pop();
+    }
+
+    fn printable_expr(&mut self) -> Expr {
+        let d = self.cfg.expr_depth;
+        // Prefer printing something in scope.
+        let vs: Vec<VarInfo> = self.vars_of(&printable);
+        if !vs.is_empty() && self.t.chance(1, 2) {
+            let v = vs[self.t.pick(vs.len())].clone();
+            return var(&v.name);
+        }
+        let ty = self.small_ty(2);
+        self.expr(&ty, d)
+    }
+
+    // Compositions that individual statement kinds rarely produce by chance.
+    fn idiom(&mut self, out: &mut Vec<Stmt>) {
+        let d = self.cfg.expr_depth;
+        match self.t.pick(8) {
+            0 | 1 => {
+                // Closures created in a loop body over a body-level variable,
+                // kept outside the loop and called afterwards.
+                let fs = self.fresh("fs");
+                out.push(declare(var(&fs), list(vec![])));
+                self.declare(&fs, Ty::Opaque, false);
+                let n = self.t.range(2, 3);
+                let v = self.fresh("w");
+                let k = self.t.range(1, 9);
+                let step = self.t.range(1, 3);
+                let mk = func(vec![], false, vec![op_assign(var(&v), Op::Sum, int(step)), ret(var(&v))]);
+                let use_for = self.t.chance(1, 2);
+                let cv = self.fresh("i");
+                let mut body = vec![];
+                if !use_for {
+                    body.push(op_assign(var(&cv), Op::Sum, int(1)));
+                }
+                body.push(declare(var(&v), bin(Op::Mul, var(&cv), int(k))));
+                body.push(assign(var(&fs), bin(Op::Sum, var(&fs), list(vec![mk]))));
+                self.scopes.push(vec![]);
+                self.declare(&cv, Ty::Int, false);
+                self.declare(&v, Ty::Int, true);
+                self.loop_depth += 1;
+                self.stmts_here(&mut body, 0);
+                self.loop_depth -= 1;
+                self.scopes.pop();
+                if use_for {
+                    out.push(for_(list(vec![var("_"), var(&cv)]), range(int(1), int(1 + n)), body));
+                } else {
+                    out.push(declare(var(&cv), int(0)));
+                    self.declare(&cv, Ty::Int, false);
+                    out.push(while_(bin(Op::Lt, var(&cv), int(n)), body));
+                }
+                let calls = 2 + self.t.pick(3);
+                for _ in 0..calls {
+                    let i = self.t.pick(n as usize) as i64;
+                    out.push(print(call(index(var(&fs), int(i)), vec![])));
+                }
+            },
+            2 => {
+                // `+=` on an aliased list, observed through the other name.
+                let a = self.fresh("a");
+                let b = self.fresh("b");
+                let e = self.small_ty(0);
+                let n = self.t.pick(3);
+                let init = self.expr(&Ty::List(Box::new(e.clone()), n), d);
+                out.push(declare(var(&a), init));
+                out.push(declare(var(&b), var(&a)));
+                let m = self.t.pick(3);
+                let extra = self.expr(&Ty::List(Box::new(e.clone()), m), d - 1);
+                out.push(op_assign(var(&b), Op::Sum, extra));
+                self.declare(&a, Ty::List(Box::new(e.clone()), n), true);
+                self.declare(&b, Ty::List(Box::new(e.clone()), n + m), true);
+                out.push(print(var(&a)));
+                out.push(print(bin(Op::RefEq, var(&a), var(&b))));
+                if n > 0 {
+                    let x = self.expr(&e, 0);
+                    out.push(assign(index(var(&b), int(0)), x));
+                    out.push(print(var(&a)));
+                }
+            },
+            3 => {
+                // `+=` with a list on an element / property that has another
+                // reference.
+                let o = self.fresh("o");
+                let before = self.fresh("q");
+                let via_list = self.t.chance(1, 2);
+                let inner = list(vec![int(self.t.range(0, 9))]);
+                if via_list {
+                    out.push(declare(var(&o), list(vec![inner])));
+                    out.push(declare(var(&before), index(var(&o), int(0))));
+                    out.push(op_assign(index(var(&o), int(0)), Op::Sum, list(vec![int(7)])));
+                    out.push(print(var(&before)));
+                    out.push(print(bin(Op::RefEq, var(&before), index(var(&o), int(0)))));
+                } else {
+                    out.push(declare(var(&o), obj(vec![pair("k", inner)])));
+                    out.push(declare(var(&before), prop(var(&o), "k")));
+                    let target = if self.t.chance(1, 2) { prop(var(&o), "k") } else { index(var(&o), string("k")) };
+                    out.push(op_assign(target, Op::Sum, list(vec![int(7)])));
+                    out.push(print(var(&before)));
+                    out.push(print(bin(Op::RefEq, var(&before), prop(var(&o), "k"))));
+                }
+                self.declare(&o, Ty::Opaque, false);
+                self.declare(&before, Ty::Opaque, false);
+                out.push(print(var(&o)));
+            },
+            4 => {
+                // Shadowing plus operation-assignment in an inner scope.
+                let outer: Vec<VarInfo> = self.vars_of(&|t| matches!(t, Ty::Int | Ty::Str));
+                if outer.is_empty() {
+                    out.push(print(string("noshadow")));
+                    return;
+                }
+                let v = outer[self.t.pick(outer.len())].clone();
+                let init = self.expr(&v.ty.clone(), d - 1);
+                let delta = self.expr(&v.ty.clone(), d - 1);
+                let op = if v.ty == Ty::Int { [Op::Sum, Op::Sub, Op::Mul][self.t.pick(3)] } else { Op::Sum };
+                let inner = vec![declare(var(&v.name), init), op_assign(var(&v.name), op, delta), print(var(&v.name))];
+                match self.t.pick(3) {
+                    0 => out.push(block(inner)),
+                    1 => out.push(if_(boolean(true), inner, None)),
+                    _ => {
+                        let f = self.fresh("f");
+                        out.push(fn_decl(&f, vec![], false, inner));
+                        self.declare(&f, Ty::Opaque, false);
+                        out.push(expr_stmt(call(var(&f), vec![])));
+                    },
+                }
+                out.push(print(var(&v.name)));
+            },
+            5 => {
+                // A `for` whose body writes to the container it iterates.
+                let xs = self.fresh("xs");
+                let n = self.t.range(2, 4) as usize;
+                let mut items = vec![];
+                for _ in 0..n {
+                    items.push(int(self.t.range(1, 9)));
+                }
+                let as_obj = self.t.chance(1, 3);
+                let acc = self.fresh("acc");
+                out.push(declare(var(&acc), int(0)));
+                self.declare(&acc, Ty::Int, true);
+                let k = self.fresh("k");
+                let e = self.fresh("e");
+                if as_obj {
+                    let keys = ["a", "b", "c", "d"];
+                    let props = items.into_iter().enumerate().map(|(i, v)| pair(keys[i], v)).collect();
+                    out.push(declare(var(&xs), obj(props)));
+                    let j = self.t.pick(n);
+                    let body = vec![
+                        assign(index(var(&xs), string(keys[j])), bin(Op::Mul, var(&e), int(10))),
+                        op_assign(var(&acc), Op::Sum, var(&e)),
+                    ];
+                    out.push(for_(list(vec![var(&k), var(&e)]), var(&xs), body));
+                } else {
+                    out.push(declare(var(&xs), list(items)));
+                    let j = self.t.pick(n) as i64;
+                    let mut body = vec![
+                        assign(index(var(&xs), int(j)), bin(Op::Mul, var(&e), int(10))),
+                        op_assign(var(&acc), Op::Sum, var(&e)),
+                    ];
+                    if self.t.chance(1, 3) {
+                        body.push(assign(var(&xs), list(vec![int(0)])));
+                    }
+                    out.push(for_(list(vec![var(&k), var(&e)]), var(&xs), body));
+                }
+                self.declare(&xs, Ty::Opaque, false);
+                out.push(print(var(&acc)));
+                out.push(print(var(&xs)));
+            },
+            6 => {
+                // Recursion with fuel.
+                let f = self.fresh("rec");
+                let p = self.fresh("n");
+                let k = self.t.range(1, 3);
+                let body = vec![
+                    if_(bin(Op::Lte, var(&p), int(0)), vec![ret(int(self.t.range(0, 3)))], None),
+                    ret(bin(Op::Sum, bin(Op::Mul, var(&p), int(k)), call(var(&f), vec![bin(Op::Sub, var(&p), int(1))]))),
+                ];
+                out.push(fn_decl(&f, vec![var(&p)], false, body));
+                self.declare(&f, Ty::Opaque, false);
+                out.push(print(call(var(&f), vec![int(self.t.range(0, 5))])));
+            },
+            _ => {
+                // A function that assigns to its parameter and mutates the
+                // container it was passed.
+                let f = self.fresh("mut");
+                let p = self.fresh("p");
+                let q = self.fresh("q");
+                let xs = self.fresh("ys");
+                let nn = self.fresh("m");
+                out.push(declare(var(&xs), list(vec![int(1), int(2)])));
+                out.push(declare(var(&nn), int(self.t.range(1, 9))));
+                let body = vec![
+                    assign(index(var(&p), int(0)), bin(Op::Sum, index(var(&p), int(0)), var(&q))),
+                    assign(var(&q), bin(Op::Mul, var(&q), int(2))),
+                    assign(var(&p), list(vec![int(0), int(0)])),
+                    ret(var(&q)),
+                ];
+                out.push(fn_decl(&f, vec![var(&p), var(&q)], false, body));
+                self.declare(&f, Ty::Opaque, false);
+                self.declare(&xs, Ty::List(Box::new(Ty::Int), 2), true);
+                self.declare(&nn, Ty::Int, true);
+                out.push(print(call(var(&f), vec![var(&xs), var(&nn)])));
+                out.push(print(var(&xs)));
+                out.push(print(var(&nn)));
+            },
+        }
+    }
+
+    pub fn stmt(&mut self, out: &mut Vec<Stmt>) {
+        self.budget -= 1;
+        if self.budget <= 0 {
+            out.push(print(int(0)));
+            return;
+        }
+        let c = self.cfg.clone();
+        let deep = self.depth >= c.max_depth;
+        let in_loop = self.loop_depth > 0;
+        let in_fn = self.fn_depth > 0;
+        let w = [
+            c.w_print,
+            c.w_decl,
+            c.w_assign,
+            if deep { 0 } else { c.w_if },
+            if deep { 0 } else { c.w_while },
+            if deep { 0 } else { c.w_for },
+            if deep { 0 } else { c.w_block },
+            if deep || self.fn_depth >= 2 { 0 } else { c.w_fn },
+            c.w_call,
+            c.w_destructure,
+            c.w_elem_assign,
+            if in_loop || in_fn { c.w_jump } else { 0 },
+            if deep || self.fn_depth >= 2 { 0 } else { c.w_method },
+            if deep || self.fn_depth >= 2 { 0 } else { c.w_closure },
+            if deep || self.fn_depth >= 2 { 0 } else { c.w_idiom },
+        ];
+        let d = c.expr_depth;
+        match self.t.weighted(&w) {
+            0 => {
+                let e = self.printable_expr();
+                out.push(print(e));
+            },
+            1 => {
+                let ty = self.small_ty(2);
+                let e = self.expr(&ty, d);
+                let mut nm = self.fresh("v");
+                if self.scopes.len() > 1 && self.t.chance(c.shadow, 100) {
+                    // Shadow an outer variable (not one of the current scope).
+                    let cur: Vec<String> = self.scopes.last().unwrap().iter().map(|v| v.name.clone()).collect();
+                    let outer: Vec<VarInfo> = self.visible().into_iter().filter(|v| !cur.contains(&v.name) && v.name != "this" && !matches!(v.ty, Ty::Fn(_))).collect();
+                    if !outer.is_empty() {
+                        nm = outer[self.t.pick(outer.len())].name.clone();
+                    }
+                }
+                // Aliasing: declare a second name for a container in scope.
+                if c.aliasing && self.t.chance(1, 6) {
+                    let cs = self.vars_of(&|t| matches!(t, Ty::List(..) | Ty::Obj(_)));
+                    if !cs.is_empty() {
+                        let a = cs[self.t.pick(cs.len())].clone();
+                        out.push(declare(var(&nm), var(&a.name)));
+                        self.declare(&nm, a.ty, true);
+                        return;
+                    }
+                }
+                out.push(declare(var(&nm), e));
+                self.declare(&nm, ty, true);
+            },
+            2 => {
+                let vs: Vec<VarInfo> = self.visible().into_iter().filter(|v| v.assignable && !matches!(v.ty, Ty::Fn(_) | Ty::Null | Ty::Opaque)).collect();
+                if vs.is_empty() {
+                    out.push(print(string("none")));
+                    return;
+                }
+                let v = vs[self.t.pick(vs.len())].clone();
+                let op_ok = matches!(v.ty, Ty::Int | Ty::Str) || matches!(v.ty, Ty::List(_, 0));
+                if op_ok && self.t.chance(1, 2) {
+                    match &v.ty {
+                        Ty::Int => {
+                            let op = [Op::Sum, Op::Sub, Op::Mul, Op::Div, Op::Mod][self.t.weighted(&[4, 3, 2, 1, 1])];
+                            let r = if matches!(op, Op::Div | Op::Mod) { int([1, 2, 3, -3][self.t.pick(4)]) } else { self.expr(&Ty::Int, d - 1) };
+                            out.push(op_assign(var(&v.name), op, r));
+                        },
+                        Ty::Str => {
+                            let r = self.expr(&Ty::Str, d - 1);
+                            out.push(op_assign(var(&v.name), Op::Sum, r));
+                        },
+                        _ => {
+                            let r = self.expr(&v.ty.clone(), d - 1);
+                            out.push(op_assign(var(&v.name), Op::Sum, r));
+                        },
+                    }
+                } else {
+                    let e = self.expr(&v.ty.clone(), d);
+                    out.push(assign(var(&v.name), e));
+                }
+            },
+            3 => {
+                let nb = 1 + self.t.pick(3);
+                let mut branches = vec![];
+                for _ in 0..nb {
+                    let cnd = self.expr(&Ty::Bool, d);
+                    let mut b = vec![];
+                    self.block(&mut b, 0);
+                    branches.push((cnd, b));
+                }
+                let els = if self.t.chance(1, 2) {
+                    let mut b = vec![];
+                    self.block(&mut b, 0);
+                    Some(b)
+                } else {
+                    None
+                };
+                out.push(st(SK::If(branches, els)));
+            },
+            4 => {
+                // Counter loop; the counter is advanced first so that
+                // `continue` cannot skip it, and the body cannot assign it.
+                let i = self.fresh("i");
+                let n = self.t.range(0, 4);
+                out.push(declare(var(&i), int(0)));
+                self.declare(&i, Ty::Int, false);
+                let mut b = vec![op_assign(var(&i), Op::Sum, int(1))];
+                self.loop_depth += 1;
+                self.block(&mut b, 0);
+                self.loop_depth -= 1;
+                out.push(while_(bin(Op::Lt, var(&i), int(n)), b));
+            },
+            5 => {
+                let which = self.t.pick(3);
+                let (iter, kty, vty) = match which {
+                    0 => {
+                        let e = self.small_ty(1);
+                        let n = self.t.pick(4);
+                        let ty = Ty::List(Box::new(e.clone()), n);
+                        (self.expr(&ty, d), Ty::Int, e)
+                    },
+                    1 => (self.expr(&Ty::Str, d - 1), Ty::Int, Ty::Str),
+                    _ => {
+                        let e = self.small_ty(0);
+                        let n = 1 + self.t.pick(3);
+                        let mut fields = vec![];
+                        for j in 0..n {
+                            fields.push((KEYS[(j * 3 + self.t.pick(2)) % KEYS.len()].to_string(), e.clone()));
+                        }
+                        fields.dedup_by(|a, b| a.0 == b.0);
+                        (self.expr(&Ty::Obj(fields), d), Ty::Str, e)
+                    },
+                };
+                self.scopes.push(vec![]);
+                let target = match self.t.pick(4) {
+                    0 => {
+                        let p = self.fresh("kv");
+                        self.declare(&p, Ty::Opaque, false);
+                        var(&p)
+                    },
+                    1 => {
+                        let v = self.fresh("e");
+                        self.declare(&v, vty, false);
+                        list(vec![var("_"), var(&v)])
+                    },
+                    _ => {
+                        let k = self.fresh("k");
+                        let v = self.fresh("e");
+                        self.declare(&k, kty, false);
+                        self.declare(&v, vty, false);
+                        list(vec![var(&k), var(&v)])
+                    },
+                };
+                let mut b = vec![];
+                if let EK::Var(p) = &target.k {
+                    b.push(print(index(var(p), int(0))));
+                }
+                self.loop_depth += 1;
+                self.stmts_here(&mut b, 0);
+                self.loop_depth -= 1;
+                self.scopes.pop();
+                out.push(for_(target, iter, b));
+            },
+            6 => {
+                let mut b = vec![];
+                self.block(&mut b, 1);
+                if b.is_empty() {
+                    b.push(print(int(1)));
+                }
+                out.push(block(b));
+            },
+            7 => {
+                let sig = self.new_sig(None);
+                let nm = self.fresh("f");
+                // Declared before the body is generated so that the function
+                // can call itself? No: recursion needs fuel; see `w_closure`.
+                let (params, collect, body) = self.fn_parts(&sig);
+                out.push(fn_decl(&nm, params, collect, body));
+                self.declare(&nm, Ty::Fn(sig), false);
+            },
+            8 => {
+                let fs: Vec<VarInfo> = self.vars_of(&|t| matches!(t, Ty::Fn(s) if s.this.is_none()));
+                if fs.is_empty() {
+                    out.push(print(string("nofn")));
+                    return;
+                }
+                let f = fs[self.t.pick(fs.len())].clone();
+                if let Ty::Fn(sig) = &f.ty {
+                    let cexpr = self.call_of(var(&f.name), sig, d - 1);
+                    if printable(&sig.ret) && self.t.chance(2, 3) {
+                        out.push(print(cexpr));
+                    } else {
+                        out.push(expr_stmt(cexpr));
+                    }
+                }
+            },
+            9 => {
+                // Destructuring declaration from a fresh or existing value.
+                if self.t.chance(1, 2) {
+                    let e = self.small_ty(1);
+                    let n = self.t.pick(4);
+                    let collect = self.t.chance(1, 3);
+                    let src_n = if collect { n + self.t.pick(3) } else { n };
+                    let src = self.expr(&Ty::List(Box::new(e.clone()), src_n), d);
+                    let mut items = vec![];
+                    for _ in 0..n {
+                        if self.t.chance(1, 5) {
+                            items.push(item(var("_")));
+                        } else {
+                            let nm = self.fresh("d");
+                            self.declare(&nm, e.clone(), true);
+                            items.push(item(var(&nm)));
+                        }
+                    }
+                    if collect {
+                        let nm = self.fresh("rest");
+                        self.declare(&nm, Ty::List(Box::new(e.clone()), src_n - n), true);
+                        items.push(item(var(&nm)));
+                    }
+                    out.push(declare(list_items(items, collect), src));
+                } else {
+                    let ty = self.small_ty(2);
+                    let fields = match &ty { Ty::Obj(f) => f.clone(), _ => vec![("k".to_string(), ty.clone())] };
+                    let src = self.expr(&Ty::Obj(fields.clone()), d);
+                    let collect = self.t.chance(1, 3);
+                    let take = if collect { self.t.pick(fields.len() + 1) } else { fields.len() };
+                    let mut props = vec![];
+                    for (k, fty) in fields.iter().take(take) {
+                        let nm = self.fresh("d");
+                        self.declare(&nm, fty.clone(), true);
+                        props.push(Prop::Pair(string(k), var(&nm)));
+                    }
+                    if collect {
+                        let nm = self.fresh("rest");
+                        self.declare(&nm, Ty::Obj(fields[take..].to_vec()), true);
+                        props.push(Prop::Single{e: var(&nm), spread: false, collect: true});
+                    }
+                    out.push(declare(obj(props), src));
+                }
+            },
+            10 => {
+                // Element / property / range assignment through a name.
+                let cs = self.vars_of(&|t| matches!(t, Ty::List(_, n) if *n > 0) || matches!(t, Ty::Obj(f) if !f.is_empty()));
+                if cs.is_empty() {
+                    out.push(print(string("nocont")));
+                    return;
+                }
+                let v = cs[self.t.pick(cs.len())].clone();
+                match &v.ty {
+                    Ty::List(e, n) => {
+                        let i = self.t.pick(*n);
+                        match self.t.pick(3) {
+                            0 if **e == Ty::Int => {
+                                let r = self.expr(&Ty::Int, d - 1);
+                                out.push(op_assign(index(var(&v.name), int(i as i64)), Op::Sum, r));
+                            },
+                            1 => {
+                                let a = self.t.pick(*n);
+                                let b = a + 1 + self.t.pick(*n - a);
+                                let r = self.expr(&Ty::List(e.clone(), b - a), d - 1);
+                                let (ea, eb) = (if a == 0 && self.t.chance(1, 2) { None } else { Some(int(a as i64)) }, if b == *n && self.t.chance(1, 2) { None } else { Some(int(b as i64)) });
+                                out.push(assign(range_index(var(&v.name), ea, eb), r));
+                            },
+                            _ => {
+                                let r = self.expr(&(**e).clone(), d - 1);
+                                out.push(assign(index(var(&v.name), int(i as i64)), r));
+                            },
+                        }
+                    },
+                    Ty::Obj(fields) => {
+                        let (k, fty) = fields[self.t.pick(fields.len())].clone();
+                        if matches!(fty, Ty::Fn(_)) {
+                            out.push(print(string("fnfield")));
+                            return;
+                        }
+                        let r = self.expr(&fty, d - 1);
+                        let target = if is_ident(&k) && self.t.chance(1, 2) { prop(var(&v.name), &k) } else { index(var(&v.name), string(&k)) };
+                        if fty == Ty::Int && self.t.chance(1, 3) {
+                            out.push(op_assign(target, Op::Sub, r));
+                        } else {
+                            out.push(assign(target, r));
+                        }
+                    },
+                    _ => {},
+                }
+            },
+            11 => {
+                // A jump under an `if` (so that the rest of the body is
+                // reachable on other paths).
+                let cnd = self.expr(&Ty::Bool, d);
+                let j = if in_loop && (!in_fn || self.t.chance(2, 3)) {
+                    if self.t.chance(1, 2) { st(SK::Break) } else { st(SK::Continue) }
+                } else if in_fn {
+                    let rt = self.ret_ty.last().cloned().unwrap_or(Ty::Null);
+                    let r = self.expr(&rt, d - 1);
+                    ret(r)
+                } else {
+                    st(SK::Break)
+                };
+                let body = if self.t.chance(1, 4) { vec![block(vec![j])] } else { vec![j] };
+                out.push(if_(cnd, body, None));
+            },
+            12 => {
+                // An object with a method using `this`, called through
+                // various routes.
+                let tag_ty = Ty::Int;
+                let fields = vec![("tag".to_string(), tag_ty.clone()), ("n".to_string(), Ty::Int)];
+                let msig = Rc::new(FnSig{params: vec![], rest: None, ret: Ty::Int, this: Some(fields.clone())});
+                let o = self.fresh("o");
+                let (params, collect, mut body) = self.fn_parts(&msig);
+                body.insert(0, print(prop(var("this"), "tag")));
+                let tagv = self.t.range(10, 99);
+                let lit = obj(vec![pair("tag", int(tagv)), pair("n", int(1)), pair("m", func(params, collect, body))]);
+                out.push(declare(var(&o), lit));
+                let mut ofields = fields.clone();
+                ofields.push(("m".to_string(), Ty::Fn(msig.clone())));
+                self.declare(&o, Ty::Obj(ofields), false);
+                match self.t.pick(5) {
+                    0 => out.push(print(call(prop(var(&o), "m"), vec![]))),
+                    1 => out.push(print(call(index(var(&o), string("m")), vec![]))),
+                    2 => {
+                        let g = self.fresh("g");
+                        out.push(declare(var(&g), prop(var(&o), "m")));
+                        self.declare(&g, Ty::Opaque, false);
+                        out.push(print(call(var(&g), vec![])));
+                    },
+                    3 => {
+                        let o2 = self.fresh("o");
+                        let t2 = self.t.range(100, 199);
+                        out.push(declare(var(&o2), obj(vec![pair("tag", int(t2)), pair("n", int(2)), pair("m", prop(var(&o), "m"))])));
+                        self.declare(&o2, Ty::Opaque, false);
+                        out.push(print(call(prop(var(&o2), "m"), vec![])));
+                        out.push(print(call(prop(var(&o), "m"), vec![])));
+                    },
+                    _ => {
+                        let l = self.fresh("ms");
+                        out.push(declare(var(&l), list(vec![prop(var(&o), "m")])));
+                        self.declare(&l, Ty::Opaque, false);
+                        out.push(print(call(index(var(&l), int(0)), vec![])));
+                    },
+                }
+            },
+            14 => self.idiom(out),
+            _ => {
+                // A counter closure: captured variable updated across calls.
+                let mk = self.fresh("mk");
+                let c0 = self.fresh("c");
+                let step = self.t.range(1, 3);
+                let inner = func(vec![], false, vec![
+                    op_assign(var(&c0), Op::Sum, int(step)),
+                    ret(var(&c0)),
+                ]);
+                out.push(fn_decl(&mk, vec![var(&c0)], false, vec![ret(inner)]));
+                self.declare(&mk, Ty::Opaque, false);
+                let g = self.fresh("g");
+                out.push(declare(var(&g), call(var(&mk), vec![int(self.t.range(0, 5))])));
+                let sig = Rc::new(FnSig{params: vec![], rest: None, ret: Ty::Int, this: None});
+                self.declare(&g, Ty::Fn(sig), false);
+                out.push(print(call(var(&g), vec![])));
+            },
+        }
+    }
+}
+
+pub fn printable(t: &Ty) -> bool {
+    match t {
+        Ty::Fn(_) | Ty::Opaque => false,
+        Ty::List(e, _) => printable(e),
+        Ty::Obj(f) => f.iter().all(|(_, t)| printable(t)),
+        _ => true,
+    }
+}
+
+pub fn is_ident(s: &str) -> bool {
+    let mut cs = s.chars();
+    match cs.next() {
+        Some(c) if c.is_ascii_alphabetic() || c == '_' => {},
+        _ => return false,
+    }
+    let kw = ["break", "continue", "else", "false", "fn", "for", "if", "in", "null", "return", "true", "while"];
+    cs.all(|c| c.is_ascii_alphanumeric() || c == '_') && !kw.contains(&s)
+}
+
+// The printer parenthesises by tier; this is only for readability of
+// range-in-index forms, where the tier rule already applies.
+fn paren_if_needed(e: Expr) -> Expr { e }
+
+// String literals inside interpolation slots must not contain braces (the
+// outer scanner counts them); replace them.
+pub fn strip_braces_from_strings(e: &mut Expr) {
+    match &mut e.k {
+        EK::Str(cs) => {
+            for c in cs.iter_mut() {
+                if c.0 == '{' || c.0 == '}' {
+                    c.0 = '|';
+                }
+            }
+        },
+        EK::Interp(parts) => {
+            for p in parts {
+                match p {
+                    StrPart::Text(cs) => for c in cs.iter_mut() {
+                        if c.0 == '{' || c.0 == '}' {
+                            c.0 = '|';
+                        }
+                    },
+                    StrPart::Slot(e) => strip_braces_from_strings(e),
+                }
+            }
+        },
+        EK::Bin(_, l, r) | EK::Range(l, r) | EK::Index(l, r) => {
+            strip_braces_from_strings(l);
+            strip_braces_from_strings(r);
+        },
+        EK::List(items, _) => for it in items { strip_braces_from_strings(&mut it.e); },
+        EK::Obj(props) => for p in props {
+            match p {
+                Prop::Pair(k, v) => { strip_braces_from_strings(k); strip_braces_from_strings(v); },
+                Prop::Single{e, ..} => strip_braces_from_strings(e),
+            }
+        },
+        EK::RangeIndex(s, a, b) => {
+            strip_braces_from_strings(s);
+            if let Some(a) = a { strip_braces_from_strings(a); }
+            if let Some(b) = b { strip_braces_from_strings(b); }
+        },
+        EK::Prop(s, _, _) => strip_braces_from_strings(s),
+        EK::Call(f, args) => {
+            strip_braces_from_strings(f);
+            for a in args { strip_braces_from_strings(&mut a.e); }
+        },
+        EK::Func(..) | EK::Null | EK::Bool(_) | EK::Int{..} | EK::Var(_) => {},
+    }
+}
